@@ -199,7 +199,7 @@ CLAIMED = {
         "the same order and binds the same object to the same name; C14_from_equiv - for `from m import n1 as x1, n2, ...` (any number "
         "of clauses mixing attributes and not-yet-imported submodules) `tmp := __import__(m, g, l, [n1, ...], level)` plus attribute reads "
         "leaves the same loaded set, execution order and ordered bindings; C14_lower_* tie those operations to what the converter model "
-        "emits. Relative-name resolution is performed by __import__ at run time and is observed on a vendored package tree.",
+        "emits (C14_lower_import_in_order: one expression per module of a multi-module import, in the order written). Relative-name resolution is performed by __import__ at run time and is observed on a vendored package tree.",
    note=TRUST + "Imports.v's statement and importlib semantics are models written from the language reference / importlib documentation, validated on corpus/pkgroot (modules log their own execution).",
    technique="Coq proof over an import-system state machine (statement semantics vs emitted operations) + shape lemmas on the converter model + differential execution on a logging package tree",
    ref="5/C14"),
